@@ -10,8 +10,8 @@ ASSUMPTIONS = conn.COMMON_ASSUMPTIONS
 def targets(eng):
     from contracts import noise
     from pyvc.engine import Engine
-    return _noise_targets() + conn.targets_for(eng, ["_cleanup", "report_fatal_error", "send_messages", "process_packet", "force_disconnect", "_async_send_keep_alive",
-                                  "_async_pong_not_received", "_handle_disconnect_request_internal", "_connect_init_frame_helper",
+    return _noise_targets() + conn.targets_for(eng, ["__init__", "_cleanup", "report_fatal_error", "send_messages", "process_packet", "force_disconnect", "_async_send_keep_alive",
+                                  "_async_pong_not_received", "_handle_disconnect_request_internal", "_connect_socket_connect", "_connect_init_frame_helper",
                                   "start_connection", "finish_connection", "disconnect", "send_messages_await_response_complex"], ["C08"])
 
 
